@@ -201,7 +201,46 @@ func (f *Flow) damageCases() []DamageRec {
 
 type monC15 struct {
 	NopMonitor
-	saved map[uint][][]byte // key -> every packet genuinely handed to Save
+	saved    map[uint][][]byte // key -> every packet genuinely handed to Save
+	imageGen int               // incarnation whose adopted image was compared
+}
+
+// Step (FileSystem store): what an incarnation finds under a key is something
+// that was saved under that key. Savers of different keys overlap inside the
+// file system; no record may end up under another key's name.
+func (m *monC15) Step(f *Flow) {
+	w := f.W
+	if f.FS == nil || w.Gen < 2 || m.imageGen == w.Gen || f.C == nil || len(f.Damage) != 0 {
+		return
+	}
+	m.imageGen = w.Gen
+	for _, key := range w.Disk.SortedKeys() {
+		if key == 0 || key > 0xffff {
+			continue
+		}
+		pkt, _, _, ok := StoredPacket(w.Disk.M[key])
+		if !ok {
+			continue
+		}
+		genuine := false
+		for _, sv := range m.saved[key] {
+			if bytes.Equal(sv, pkt) {
+				genuine = true
+			}
+		}
+		if !genuine && len(m.saved[key]) > 0 {
+			w.Violate("C15", "round-trip", "foreign-record", "after the restart key %#x holds a %d-byte packet beginning % x that was never saved under that key (%d values were)", key, len(pkt), head(pkt, 6), len(m.saved[key]))
+			return
+		}
+	}
+	w.Probe("adopted_image_compared")
+}
+
+func head(b []byte, n int) []byte {
+	if len(b) > n {
+		return b[:n]
+	}
+	return b
 }
 
 // OnSave checks the documented layout of every value the client stores.
@@ -373,8 +412,8 @@ type monC16 struct {
 
 func (m *monC16) Final(f *Flow) {
 	w := f.W
-	if len(f.Damage) == 0 {
-		return
+	if len(f.Damage) == 0 && !(f.O.FSStore && w.Gen > 1) {
+		return // (leftovers of a killed Save on the FileSystem store are damage, too)
 	}
 	if f.AdoptFatal != nil {
 		w.Violate("C16", "adopt-fatal", warnKind(f.AdoptFatal), "AdoptSession failed on a damaged Persistence: %v (damage: %s)", f.AdoptFatal, f.damageSummary())
